@@ -128,6 +128,7 @@ def _migrate_csv_to_rules(csv_file: str, config_dir: str, backup: bool = True) -
     """
     from .merchant_engine import csv_to_merchants_content
     from .merchant_utils import load_merchant_rules
+    import re
     import shutil
 
     try:
@@ -152,7 +153,7 @@ def _migrate_csv_to_rules(csv_file: str, config_dir: str, backup: bool = True) -
         if os.path.exists(settings_path):
             with open(settings_path, 'r', encoding='utf-8') as f:
                 content = f.read()
-            if 'merchants_file:' not in content:
+            if not re.search(r'^merchants_file\s*:', content, re.MULTILINE):
                 with open(settings_path, 'a', encoding='utf-8') as f:
                     f.write('\n# Merchant rules file (migrated from CSV)\n')
                     f.write('merchants_file: config/merchants.rules\n')
